@@ -324,6 +324,44 @@ def L(v):
     return ("l", v)
 
 
+def C(shape):
+    """a compound / constant *formula* operand (see SHAPES): operators may look at the shape of an operand"""
+    return ("c", SHAPES[shape][0], shape)
+
+
+def _num(m, T, v):
+    return m.Int(v) if T == INT else m.Real(v)
+
+
+def _mk_shapes():
+    """name -> (sort, symbol sorts, build(m, syms) -> FNode, ref(*symbol values) -> value)"""
+    Sh = {}
+    for T, t in ((INT, "i"), (REAL, "r")):
+        one = (lambda T: lambda m, v: _num(m, T, v))(T)
+        Sh[t + ":x*-1*y"] = (T, (T, T), (lambda one: lambda m, s: m.Times(s[0], one(m, -1), s[1]))(one), lambda x, y: -x * y)
+        Sh[t + ":-1*x*y"] = (T, (T, T), (lambda one: lambda m, s: m.Times(one(m, -1), s[0], s[1]))(one), lambda x, y: -x * y)
+        Sh[t + ":x*y*-1"] = (T, (T, T), (lambda one: lambda m, s: m.Times(s[0], s[1], one(m, -1)))(one), lambda x, y: -x * y)
+        Sh[t + ":-1*x"] = (T, (T,), (lambda one: lambda m, s: m.Times(one(m, -1), s[0]))(one), lambda x: -x)
+        Sh[t + ":x*-1"] = (T, (T,), (lambda one: lambda m, s: m.Times(s[0], one(m, -1)))(one), lambda x: -x)
+        Sh[t + ":x+1"] = (T, (T,), (lambda one: lambda m, s: m.Plus(s[0], one(m, 1)))(one), lambda x: x + 1)
+        Sh[t + ":x-y"] = (T, (T, T), lambda m, s: m.Minus(s[0], s[1]), lambda x, y: x - y)
+        Sh[t + ":0-x"] = (T, (T,), (lambda one: lambda m, s: m.Minus(one(m, 0), s[0]))(one), lambda x: -x)
+        for v in (-1, 0, 2):
+            Sh["%s:const%d" % (t, v)] = (T, (), (lambda one, v: lambda m, s: one(m, v))(one, v),
+                                         (lambda v, T: lambda: v if T == INT else Fraction(v))(v, T))
+    Sh["b:not"] = (BOOL, (BOOL,), lambda m, s: m.Not(s[0]), lambda a: not a)
+    Sh["b:true"] = (BOOL, (), lambda m, s: m.TRUE(), lambda: True)
+    Sh["b:false"] = (BOOL, (), lambda m, s: m.FALSE(), lambda: False)
+    for w in (1, 2, 3):
+        for v in range(1 << w):
+            Sh["bv%d:const%d" % (w, v)] = (BV(w), (), (lambda v, w: lambda m, s: m.BV(v, w))(v, w), (lambda v: lambda: v)(v))
+        Sh["bv%d:neg" % w] = (BV(w), (BV(w),), lambda m, s: m.BVNeg(s[0]), (lambda w: lambda a: wrap(-a, w))(w))
+        Sh["bv%d:not" % w] = (BV(w), (BV(w),), lambda m, s: m.BVNot(s[0]), (lambda w: lambda a: mask(w) ^ a)(w))
+    return Sh
+
+
+SHAPES = _mk_shapes()
+
 class Case(object):
     __slots__ = ("group", "name", "api", "args", "call", "ref", "rs", "must", "key", "cost", "dom")
 
@@ -340,12 +378,17 @@ class Case(object):
         for a in self.args:
             if a[0] == "s":
                 c *= len(sort_values(a[1], self.dom))
+            elif a[0] == "c":
+                for ss in SHAPES[a[2]][1]:
+                    c *= len(sort_values(ss, self.dom))
         self.cost = c
 
     def kinds(self):
         out = []
         for a in self.args:
-            if a[0] == "l":
+            if a[0] == "c":
+                out.append("<%s>" % a[2])
+            elif a[0] == "l":
                 out.append("lit")
             elif isbv(a[1]):
                 out.append("BV")
@@ -369,6 +412,8 @@ class Case(object):
 def _argdesc(a):
     if a[0] == "s":
         return sort_str(a[1])
+    if a[0] == "c":
+        return "<%s>" % a[2]
     v = a[1]
     if isinstance(v, (list, tuple)):
         return "[" + ";".join(_argdesc(x) for x in v) + "]"
@@ -446,6 +491,35 @@ def ctor_cases(quick):
                     if 1 <= n <= 3:
                         add(nm, [L(sign)] + [S(BV(w))] * n, ref, BV(w), call=_attr_list(nm, 1),
                             variant="[list]")
+    # ---- Min / Max over constant *formulas* (a constructor may fold constants) and mixed with symbols
+    for T, t in ((INT, "i"), (REAL, "r")):
+        cs = ["%s:const%d" % (t, v) for v in (-1, 0, 2)]
+        for nm, f in (("Min", min), ("Max", max)):
+            ref = (lambda f: lambda *v: f(v))(f)
+            for a in cs:
+                add(nm, [C(a), S(T)], ref, T, apis=("mgr",))
+                add(nm, [S(T), C(a)], ref, T, apis=("mgr",))
+                for b in cs:
+                    add(nm, [C(a), C(b)], ref, T, apis=("mgr",))
+                    add(nm, [C(a), S(T), C(b)], ref, T, apis=("mgr",))
+    for w in (1, 2, 3):
+        if w not in B["nary_widths"]:
+            continue
+        cs = ["bv%d:const%d" % (w, v) for v in range(1 << w)]
+        for sign in (False, True):
+            for nm, f in (("MinBV", min), ("MaxBV", max)):
+                if sign:
+                    ref = (lambda f, w: lambda s, *v: f(v, key=lambda x: sgn(x, w)))(f, w)
+                else:
+                    ref = (lambda f: lambda s, *v: f(v))(f)
+                for a in cs:
+                    add(nm, [L(sign), C(a), S(BV(w))], ref, BV(w), apis=("mgr",))
+                    add(nm, [L(sign), S(BV(w)), C(a)], ref, BV(w), apis=("mgr",))
+                    for b in cs:
+                        add(nm, [L(sign), C(a), C(b)], ref, BV(w), apis=("mgr",))
+                        if w <= 2:
+                            for c in cs:
+                                add(nm, [L(sign), C(a), C(b), C(c)], ref, BV(w), apis=("mgr",))
     # ---- cardinality
     for n in range(0, B["nary_max"] + 1):
         add("AtMostOne", [S(BOOL)] * n, lambda *v: sum(1 for x in v if x) <= 1, BOOL)
@@ -620,6 +694,32 @@ def infix_cases(quick):
                 rcall = (lambda rdn: lambda api, a, b: getattr(a, rdn)(b))(rdn)
                 rf = (lambda f: (lambda a, b: f(b, a)))(f) if f else None
                 add(rdn, [S(T), S(T)], rcall, rf, rs, sem is not None)
+    # compound / constant formula operands: an operator may look at the shape of its operand
+    for T, t in ((INT, "i"), (REAL, "r")):
+        shapes = [k for k in SHAPES if k.startswith(t + ":")]
+        for dn, pyop, semname, rdn in PYOPS:
+            sem = SEM[semname](T)
+            if not sem:
+                continue
+            f, rs = sem
+            call = (lambda pyop: lambda api, a, b: pyop(a, b))(pyop)
+            for sh in shapes:
+                add(dn, [C(sh), S(T)], call, f, rs, True)
+                add(dn, [S(T), C(sh)], call, f, rs, True)
+                if rdn is not None:
+                    for v, ok in literals(T)[:3]:
+                        if ok:
+                            add(dn + "[reflected]", [L(v), C(sh)], call, f, rs, True)
+        for sh in shapes:
+            add("__neg__", [C(sh)], lambda api, a: -a, lambda a: -a, T, True)
+    for sh in ("b:not", "b:true", "b:false"):
+        add("__invert__", [C(sh)], lambda api, a: ~a, lambda a: not a, BOOL, True)
+    for w in W:
+        if w > 3:
+            continue
+        for sh in [k for k in SHAPES if k.startswith("bv%d:" % w)]:
+            add("__neg__", [C(sh)], lambda api, a: -a, (lambda w: lambda a: wrap(-a, w))(w), BV(w), True)
+            add("__invert__", [C(sh)], lambda api, a: ~a, (lambda w: lambda a: mask(w) ^ a)(w), BV(w), True)
     # legacy spelling of division
     for T in scalar:
         sem = SEM["div"](T)
@@ -793,6 +893,13 @@ def _run_case(env, case, res, seed):
             pyargs.append(m.Symbol(nm, mk_type(env, a[1])))
             symsorts[nm] = a[1]
             names.append(nm)
+        elif a[0] == "c":
+            _, ssorts, build, _ = SHAPES[a[2]]
+            nms = ["%s%d_%d" % (prefix, i, j) for j in range(len(ssorts))]
+            for nm, ss in zip(nms, ssorts):
+                symsorts[nm] = ss
+            pyargs.append(build(m, [m.Symbol(nm, mk_type(env, ss)) for nm, ss in zip(nms, ssorts)]))
+            names.append(tuple(nms))
         else:
             pyargs.append(a[1])
             names.append(None)
@@ -836,7 +943,8 @@ def _run_case(env, case, res, seed):
     n_def = n_undef = 0
     bad = None
     for I in interps(symsorts, case.dom):
-        vals = [I[nm] if nm is not None else litval(a[1]) for nm, a in zip(names, case.args)]
+        vals = [SHAPES[a[2]][3](*[I[n_] for n_ in nm]) if isinstance(nm, tuple) else
+                (I[nm] if nm is not None else litval(a[1])) for nm, a in zip(names, case.args)]
         try:
             want = norm(case.rs, case.ref(*vals))
         except Undefined:
